@@ -76,7 +76,12 @@ func covering() []*dg.Design {
 	d1 := &dg.Design{Name: "cover1", Types: []*dg.UserType{problem},
 		Services: []*dg.Service{{Name: "beta", Methods: []*dg.Method{m3, m4}}},
 		Features: []string{"cover:primitive_error_type", "cover:shared_user_type", "cover:body_empty"}}
-	return []*dg.Design{d0, d1}
+	// the inheritance / override lattice: the same error name declared and mapped at API,
+	// service and method level in every combination (default type everywhere; the same
+	// custom type everywhere)
+	lat0 := latticeDesign("lattice0", latCombos(0), 0)
+	lat3 := latticeDesign("lattice3", latCombos(3), 100)
+	return []*dg.Design{d0, d1, lat0, lat3}
 }
 
 // witnessDesigns hold the inputs that re-demonstrate the recorded findings.
@@ -113,5 +118,9 @@ func witnessDesigns() []*dg.Design {
 			Params: []dg.MapEntry{{Attr: "n"}, {Attr: "q"}}, Cookies: []dg.MapEntry{{Attr: "session", Wire: "sid"}}}}
 	w2 := &dg.Design{Name: "witness2", Services: []*dg.Service{{Name: "epsilon", Methods: []*dg.Method{mc}}},
 		Features: []string{"witness:required_cookie"}}
-	return []*dg.Design{w0, w1, w2}
+	// an API-level mapping (default error type) inherited by a method that redeclares the
+	// error with a custom type
+	w3 := latticeDesign("witness3", []latCombo{{A: latMap, M: latDecl, TM: "LatM"}, {S: latMap, M: latDecl, TM: "LatM"}}, 200)
+	w3.Features = []string{"witness:error_type_differs_between_levels"}
+	return []*dg.Design{w0, w1, w2, w3}
 }
